@@ -105,6 +105,8 @@ func timings() []timing {
 		{"t0=40ms cts=2^23-1ms", 40 * ms, []int64{(1<<23 - 1) * ms, 0}},
 		{"t0=2^32-41ms cts=+40ms", (1<<32 - 41) * ms, []int64{40 * ms}},
 		{"t0=2^32ms cts=-40ms", (1 << 32) * ms, []int64{-40 * ms, 40 * ms}},
+		{"t0=2^24-1ms cts=0 (extension byte boundary)", (1<<24 - 1) * ms, []int64{0}},
+		{"t0=2^31+7ms cts=+40ms", (1<<31 + 7) * ms, []int64{40 * ms}},
 	}
 }
 
@@ -390,7 +392,7 @@ func errClass(err error) string {
 func main() {
 	xlog.ReplaceGlobal(xlog.New(xlog.NewNopCore()))
 	rep := report.New("C08", "exploration")
-	rep.Rule = "every frame-kind sequence up to the tier length (H.264: IDR,P,SPS,PPS,SEI,AAC; H.265: IDR,TRAIL,CRA,VPS,SPS,SEI,BLA,reserved-IRAP,AAC) x rotating payload sizes {1..5,255,256,65535,65536,70000} x 5 PTS/DTS profiles (incl. PTS<DTS, CTS 2^23-1, 32-bit ms boundary) x audio lag {0,50ms: an audio frame older than the preceding video frame} x cache_gop on/off x {H.264+AAC, H.264, H.265+AAC}, pushed through the real Stream -> flv.Muxer -> FlvCache -> flv.Writer with a consumer joining after every frame; each byte stream is parsed by an independent FLV/AMF0/avcC/hvcC reader; distinct = distinct (config, frames, timing)"
+	rep.Rule = "every frame-kind sequence up to the tier length (H.264: IDR,P,SPS,PPS,SEI,AAC; H.265: IDR,TRAIL,CRA,VPS,SPS,SEI,BLA,reserved-IRAP,AAC) x rotating payload sizes {1..5,255,256,65535,65536,70000} x 7 PTS/DTS profiles (incl. PTS<DTS, CTS 2^23-1, 32-bit ms boundary) x audio lag {0,50ms: an audio frame older than the preceding video frame} x cache_gop on/off x {H.264+AAC, H.264, H.265+AAC}, pushed through the real Stream -> flv.Muxer -> FlvCache -> flv.Writer with a consumer joining after every frame; each byte stream is parsed by an independent FLV/AMF0/avcC/hvcC reader; distinct = distinct (config, frames, timing)"
 	rep.Assumptions = []string{"threads scheduled deterministically (default schedule) by the controlled scheduler", "the consumer mirrors httpFlvConsumer/wsFlvConsumer: flv.NewWriter + WriteFlvTag per tag"}
 	maxLen := 3
 	if rep.Thorough() {
